@@ -188,6 +188,15 @@ FaultResult apply_token_fault(const std::string& text, const std::vector<Token>&
         // in declaring blocks the identifier may be the declared name or a type name; no guarantee there
         r.guaranteed_error = !decl_like && !binder;
         r.type_position = ti > 0 && tok(ti - 1) == ":";
+        // a name in the process list of the system line is a use, not a declaration: "$No_such_process" is guaranteed
+        if (kind == BlockRef::SYSTEM) {
+            bool after_system = false;
+            for (size_t j = 0; j < ti; ++j)
+                if (tok(j) == "system")
+                    after_system = true;
+            if (after_system)
+                r.guaranteed_error = true;
+        }
         break;
     }
     case TF_OVERFLOW_LITERAL: {
@@ -672,7 +681,7 @@ static std::string apply_random_token_fault_xml_unchecked(const std::string& x, 
 const char* model_fault_name(int f)
 {
     static const char* n[] = {"dup-location-name", "drop-argument",  "extra-argument",   "unknown-template", "dup-template-name", "system-no-semicolon",
-                              "dup-process",       "dup-declaration", "dup-parameter",   "foreign-target",   "init-is-branchpoint", "unknown-process", "empty-template", "bad-dynamic-declaration"};
+                              "dup-process",       "dup-declaration", "dup-parameter",   "foreign-target",   "init-is-branchpoint", "unknown-process", "empty-template", "bad-dynamic-declaration", "no-system", "extra-initialiser", "function-without-return"};
     return f >= 0 && f < MF_COUNT ? n[f] : "?";
 }
 
@@ -788,6 +797,38 @@ bool apply_model_fault(Model& m, int fault, Rng& rng, bool semantic_only)
         if (!o)
             return false;
         t->edges[rng.below((uint32_t)t->edges.size())].dst_id_override = o->locs[rng.below((uint32_t)o->locs.size())].id;
+        return true;
+    }
+    case MF_NO_SYSTEM:
+        m.omit_system = true;
+        return true;
+    case MF_EXTRA_INITIALISER: {
+        for (auto& d : m.gdecls) {
+            size_t at = d.text.find(", 2 };");
+            if (d.kind == MDecl::VAR && at != std::string::npos) {
+                d.text = d.text.substr(0, at) + ", 2, 3 };";
+                return true;
+            }
+        }
+        return false;
+    }
+    case MF_FUNC_NO_RETURN: {
+        std::vector<MDecl*> c;
+        for (auto& d : m.gdecls)
+            if (d.kind == MDecl::FUN && d.text.compare(0, 4, "void") != 0 && d.text.rfind("  return ") != std::string::npos)
+                c.push_back(&d);
+        for (auto& t : m.templs)
+            for (auto& d : t.decls)
+                if (d.kind == MDecl::FUN && d.text.compare(0, 4, "void") != 0 && d.text.rfind("  return ") != std::string::npos)
+                    c.push_back(&d);
+        if (c.empty())
+            return false;
+        MDecl* d = c[rng.below((uint32_t)c.size())];
+        size_t at = d->text.rfind("  return ");
+        size_t end = d->text.find(";\n", at);
+        if (end == std::string::npos)
+            return false;
+        d->text = d->text.substr(0, at) + d->text.substr(end + 2);
         return true;
     }
     case MF_BAD_DYNAMIC_DECL: {
